@@ -38,9 +38,10 @@ def props_create(rep):
         o = ex.user['o']
         fc = [e for e in ex.events if e[0] == 'H5Fcreate']
         aw = [e for e in ex.events if e[0] == 'H5Awrite']
+        type_ok = all(str(e[4]) == str(e[5]) for e in aw)
         ok = status == 'ret' and len(fc) == 1 and ex.valid(ret == 0)
         names = [e[2].text() for e in aw if e[2] is not None and e[2].is_concrete()]
-        ok_names = sorted(names) == sorted(PROPS)
+        ok_names = sorted(names) == sorted(PROPS) and type_ok      # (each attribute stored with the type it is written with)
         vals = []
         if ok and ok_names:
             d = {e[2].text(): e[3] for e in aw}
